@@ -46,7 +46,7 @@ Definition obs_freeze_lnotab (enc : Z -> list (Z * Z) -> list Z) (v : list Z) (f
   obs_bytes tab ++ obs_pairs (findlinestarts_lnotab None false first codelen tab)
   ++ obs_pairs (findlinestarts_lnotab (Some v) false first codelen tab).
 Definition obs_freeze_310 (first codelen : Z) (m : list (Z * Z)) : list Z :=
-  let tab := encode_lineno_tab_310 first codelen m in
+  let tab := encode_lineno_tab_310_full first codelen m in
   match co_lines_310 first tab with
   | Err e => [1; err_code e]
   | Ok ls => obs_bytes tab ++ obs_pairs (fls_colines ls None) ++ obs_pairs (fls_colines ls None)
